@@ -178,7 +178,9 @@ def gen(rng: random.Random, k: int, tier: str) -> dict:
     ops, files, wsdocs = [], {}, {}
     nws = rng.randint(1, 2)
     for i in range(nws):
-        ws = specs.gen_workspace(rng, max_channels=2, max_samples=2, max_bins=2, n_meas=(1, 3), exportable=True, name_prefix=f"w{i}_" if i else "")
+        # names are free text in the schema: a third of the workspaces carry non-ASCII names
+        pfx = (f"w{i}_" if i else "") + (rng.choice(["μ_", "σé_", "ß"]) if rng.random() < 0.33 else "")
+        ws = specs.gen_workspace(rng, max_channels=2, max_samples=2, max_bins=2, n_meas=(1, 3), exportable=True, name_prefix=pfx)
         name = f"ws{i}.json"
         ops.append({"op": "write", "name": name, "kind": "ws", "doc": ws})
         files[name] = "ws"
